@@ -3,6 +3,7 @@ import Tcell.Lemmas.Lookup
 import Tcell.Spec.TermSyntax
 import Tcell.Gen.TerminfoDB
 import Tcell.Gen.TerminfoKeys
+import Tcell.Gen.LookupMode
 import Tcell.Lemmas.PrefixFree
 /-!
 # C14 — the built-in terminal database is complete and well-formed, lookups are stable
@@ -471,6 +472,13 @@ theorem lookup_order_independent (envA envB : Env) (R : Registry) (a b : Name) :
     lookupRepaired envB (lookupRepaired envA R a).2 b = lookupRepaired envB R b := by
   rw [lookup_pure]
 
+/-- The verdict for the tree under test: `Gen.lookupCopies` is what the translator's probe found; the driver ties
+    `lookupG Gen.lookupCopies` to the real code.  If the tree copies before amending, its model is order independent
+    (for the pinned tree the flag is `false`, the statement is vacuous and the witnesses below apply). -/
+theorem tree_lookup_order_independent (h : Gen.lookupCopies = true) (envA envB : Env) (R : Registry) (a b : Name) :
+    lookupG Gen.lookupCopies envB (lookupG Gen.lookupCopies envA R a).2 b = lookupG Gen.lookupCopies envB R b := by
+  rw [h]; exact lookup_order_independent envA envB R a b
+
 /-- … and for histories of any length: every lookup of a history returns what it returns in the initial registry,
     and the registry at the end is the initial one. -/
 theorem history_independent (env : Env) (R : Registry) (ns : List Name) :
@@ -491,6 +499,27 @@ example : (resultOf (lookupRepaired {} R₀ (nm "eterm-256color"))).map (·.colo
 theorem repair_preserves_lookup_value (env : Env) (R : Registry) (n : Name) :
     resultOf (lookup env R n) = resultOf (lookupRepaired env R n) :=
   lookupF_agree env _ R n
+
+/-- No lookup — pinned or repaired — registers or unregisters a name: the pinned code only edits entry contents. -/
+theorem lookup_names_unchanged (copy : Bool) (env : Env) (R : Registry) (n : Name) :
+    (lookupG copy env R n).2.names = R.names :=
+  lookupF_names copy env _ R n
+
+theorem resolvable_congr {R R' : Registry} (h : R'.names = R.names) {n : Name} (hr : Resolvable R n) : Resolvable R' n := by
+  have hf : ∀ m, R'.find m = R.find m := fun m => by simp [Registry.find, h]
+  induction hr with
+  | @registered n hn hs => exact .registered hn (by rw [hf]; exact hs)
+  | @truecolor base s h0 hs _ ih => exact .truecolor (by rw [hf]; exact h0) hs ih
+  | @c256 base s h0 hs _ ih => exact .c256 (by rw [hf]; exact h0) hs ih
+
+/-- **found_order_independent (pinned code too)**: whether a lookup succeeds or fails with `ErrTermNotFound` never depends on
+    earlier lookups or on the environment — only the *contents* of the returned entry can (see the witnesses below). -/
+theorem found_order_independent (copy : Bool) (envA envB envC : Env) (R : Registry) (a b : Name) :
+    (lookupG copy envB (lookupG copy envA R a).2 b).1.isSome = (lookupG copy envC R b).1.isSome := by
+  have hn := lookup_names_unchanged copy envA R a
+  apply Bool.eq_iff_iff.mpr
+  rw [found_iff_resolvable, found_iff_resolvable]
+  exact ⟨resolvable_congr hn.symm, resolvable_congr hn⟩
 
 /-- **Pinned code, witness 1** (probe of the design round): looking up `eterm-256color` turns the registered
     `eterm-color` entry into a 256-colour entry — a later lookup of `eterm-color` returns 256 colours instead of 8. -/
